@@ -74,6 +74,13 @@ func (u *unaryNegation) Next(ctx context.Context) ([]model.StepVector, error) {
 	default:
 	}
 
+	// Make sure the workers are started even if Series was not called.
+	var err error
+	u.once.Do(func() { err = u.loadSeries(ctx) })
+	if err != nil {
+		return nil, err
+	}
+
 	in, err := u.next.Next(ctx)
 	if err != nil {
 		return nil, err
